@@ -754,8 +754,16 @@ def concile_table(check, repo, rules):
             if atom[0] == 'eq' and set([atom[1], atom[2]]) == set([('A', L, 'default'), ('A', R, 'default')]):
                 eqdef = pol
         msgs = []
+        # `empty` is a sentinel: equal defaults are both set or both missing
+        if eqdef is True:
+            if dl is not None and dr is None:
+                dr = dl
+            elif dr is not None and dl is None:
+                dl = dr
         for a in ([dl] if dl is not None else [True, False]):
             for b in ([dr] if dr is not None else [True, False]):
+                if eqdef is True and a != b:
+                    continue
                 if a and b:
                     if dclass == 'empty':
                         msgs.append(('exact', 'both operands have a default but the result is required'))
@@ -825,7 +833,8 @@ def concile_table(check, repo, rules):
         for cat, rid in rules.items():
             if cat == 'leftwins':
                 continue
-            cats = {'default': ('sound', 'exact', 'value'), 'annotation': ('annot',), 'pair': ('pair',), 'sound': ('sound',)}[cat]
+            cats = {'default': ('sound', 'exact', 'value'), 'annotation': ('annot',), 'pair': ('pair',), 'sound': ('sound',),
+                    'exact': ('exact',)}[cat]
             mine = sorted(set(m for c, m in msgs if c in cats))
             unk = [m for c, m in msgs if c == 'unknown']
             if unk or unknown:
